@@ -255,4 +255,25 @@ def specExtractRow {α} (arrays : List (List α)) (stranded : Bool) (iv : Iv) : 
   let row := ((arrays.getD iv.c []).drop iv.s).take (iv.e - iv.s)
   if stranded && !iv.fwd then row.reverse else row
 
+/-! ## The streamed per-chromosome path and genome-wide quantities -/
+
+/-- single-contig `get_pileup(intervals, size)` as a dense array -/
+def pile1 (sz : Nat) (l : List (Nat × Nat)) : List Nat := (List.range sz).map (covCount l)
+
+/-- the streamed path (`from_interval_stream` / `as_stream`): `iter_chromosomes` hands out one table per
+chromosome of the genome order (the empty table where there are no entries), zipped with the chromosome
+sizes; every table goes through the single-contig pile-up -/
+def pileupStream (sizes : List Nat) (ivs : List Iv) : List (List Nat) :=
+  (List.range sizes.length).map (fun c => pile1 (size sizes c) ((ivs.filter (fun iv => iv.c = c)).map (fun iv => (iv.s, iv.e))))
+
+def maskStream (sizes : List Nat) (ivs : List Iv) : List (List Nat) :=
+  (pileupStream sizes ivs).map (fun d => d.map (fun n => if n = 0 then 0 else 1))
+
+/-- `(track == 0).sum()` / `(~mask).sum()` -/
+def zerosOf (d : List Nat) : Nat := (d.filter (fun v => v = 0)).length
+
+/-- `np.histogram(track, bins=[0, 1, 2, 3])[0]` (the last bin is closed) -/
+def histOf (d : List Nat) : List Nat :=
+  [(d.filter (fun v => v = 0)).length, (d.filter (fun v => v = 1)).length, (d.filter (fun v => v = 2 || v = 3)).length]
+
 end C10
